@@ -46,5 +46,13 @@ CHECKS = {
         note="Trusts the stdlib json module for parsing the encoder's output; whole-second timestamps/durations only in the encoding part.",
         design_ref="DESIGN.md §4 C15",
     ),
+    "C11": dict(
+        technique="property-based testing (Hypothesis) against an independent integer-microsecond calendar model (days-from-civil), zoneinfo differential for DST zones",
+        category="exploration",
+        text="Generated timestamps/durations/offsets/zones: arithmetic laws and range errors vs integer microsecond arithmetic, ten accessors vs an "
+             "independent proleptic-Gregorian computation in UTC, +-HH:MM offsets and IANA zones, duration texts vs exact Fraction sums; both runners.",
+        note="Constant-offset zones by public record (>=1970); DST zones differential vs zoneinfo; fractional duration texts < 1e8 s.",
+        design_ref="DESIGN.md §4 C11",
+    ),
 }
 NOT_APPLICABLE = {}
